@@ -7,7 +7,7 @@ import subprocess
 ROOT = os.path.dirname(os.path.abspath(__file__))
 SRC = os.path.join(ROOT, "build", "native-src")
 TARGET = os.path.join(ROOT, "build", "native-target")
-ORACLES = {"c14_jet_codes_replay": "jets_native.rs", "c16_policy_sort_replay": "policy_native.rs", "c02_codec_replay": "codec_native.rs", "c09_cmr_replay": "cmr_native.rs", "c19_budget_replay": "budget_native.rs", "c11_value_order_replay": "value_native.rs"}
+ORACLES = {"c14_jet_codes_replay": "jets_native.rs", "c16_policy_sort_replay": "policy_native.rs", "c02_codec_replay": "codec_native.rs", "c09_cmr_replay": "cmr_native.rs", "c19_budget_replay": "budget_native.rs", "c11_value_order_replay": "value_native.rs", "c18_dag_replay": "dag_native.rs"}
 
 
 BOUNDS = {
@@ -15,9 +15,10 @@ BOUNDS = {
                         "every combinator tree of depth <= 2 over iden/unit/witness/fail/word/jet leaves encoded and decoded again",
     "c14_jet_codes_replay": "all 1267 jets, three continuations each; all 24-bit inputs per family",
     "c16_policy_sort_replay": "all policies of nesting depth <= 2 over After(1..3) leaves (and/or/threshold)",
+    "c18_dag_replay": "comp/pair DAGs of depth <= 3 over unit with every reuse/copy choice among the first 6 sub-DAGs per level, as commitment-time programs",
     "c11_value_order_replay": "about 2000 values of widths <= 24 bits built by constructors, by decoding padded / compact bits and by sub-value extraction (depth <= 3); all pairs",
     "c19_budget_replay": "stacks of {0,1,2,5,251..254,300,65535,65536} items of {0,1,2,252,253,254} bytes; weights at budget-2 .. budget+65537",
-    "c09_cmr_replay": "all combinator trees of depth <= 2 over iden/unit/witness/fail leaves, as nodes / bare roots / hiding wrappers",
+    "c09_cmr_replay": "all combinator trees of depth <= 2 over iden/unit/witness/fail leaves, as nodes / bare roots / hiding wrappers, and converted to commitment- and redemption-time nodes",
 }
 
 
